@@ -982,9 +982,15 @@ def bounded_items(interp, d: DictRef):
         keys.append(k)
         note_ground(interp, k)
     x = z3.Const(f"x!it{tag}", d.t.ksort)
-    interp.assume(z3.ForAll([x], z3.Select(dom, x) == z3.Or(*[x == k for k in keys]) if keys else z3.Not(z3.Select(dom, x)), patterns=[z3.Select(dom, x)]))
+    body_ = z3.Select(dom, x) == z3.Or(*[x == k for k in keys]) if keys else z3.Not(z3.Select(dom, x))
+    try:
+        interp.assume(z3.ForAll([x], body_, patterns=[z3.Select(dom, x)]))
+    except z3.Z3Exception:
+        interp.assume(z3.ForAll([x], body_))
     if len(keys) > 1:
         interp.assume(z3.Distinct(*keys))
+    for k in keys:
+        interp.assume(z3.Select(dom, k))  # ground fact for feasibility pruning
     out = []
     for k in keys:
         kk = BondVal(k) if d.t.ksort == BondS else (ChgTerm(k) if d.t.ksort == ChgS else (KeyTerm(k) if d.t.ksort == KeyS else k))
@@ -1013,9 +1019,15 @@ def bounded_elements(interp, s: SetRef):
         elems.append(z3.Const(f"el!{tag}_{j}", s.t.esort))
         note_ground(interp, elems[-1])
     x = z3.Const(f"x!el{tag}", s.t.esort)
-    interp.assume(z3.ForAll([x], z3.Select(arr, x) == (z3.Or(*[x == e for e in elems]) if elems else z3.BoolVal(False)), patterns=[z3.Select(arr, x)]))
+    body_ = z3.Select(arr, x) == (z3.Or(*[x == e for e in elems]) if elems else z3.BoolVal(False))
+    try:
+        interp.assume(z3.ForAll([x], body_, patterns=[z3.Select(arr, x)]))
+    except z3.Z3Exception:
+        interp.assume(z3.ForAll([x], body_))
     if len(elems) > 1:
         interp.assume(z3.Distinct(*elems))
+    for e in elems:
+        interp.assume(z3.Select(arr, e))
     return [BondVal(e) if s.t.esort == BondS else e for e in elems]
 
 
